@@ -138,7 +138,7 @@ func HarnessC14Sequences() {
 // sync.Once, sync.Pool, pipe operations); a state in which every goroutine is
 // blocked is reported as a deadlock.
 //
-//verif:harness property=C14 stubs=json,wire sched=explore shard=proto:3
+//verif:harness property=C14 stubs=json,wire sched=explore preempt=2 preemptT=2 shard=proto:3
 func HarnessC14Interleavings() {
 	c14Run(nondetChoice("proto", 3), true)
 }
